@@ -127,6 +127,7 @@ func (r *Rig) real(b string) string { return b + r.suffix }
 func NewPool(g *Gate, opt Options) (*Pool, error) {
 	pr := &panicRec{}
 	conn := fixture.NewVConn(map[string]string{"user": "pass"})
+	conn.WideIDs = true
 	if opt.MaxMsgs > 0 || opt.MaxUID > 0 {
 		mm, mu := uint32(1<<31), imap.UID(1<<31)
 		if opt.MaxMsgs > 0 {
@@ -538,6 +539,52 @@ func (r *Rig) Exec(idx int, st *Step, prev *Step) *Drift {
 		res = s.c.Cmd("FETCH 1:* (UID FLAGS)")
 		r.logf("[%s] FETCH 1:* (UID FLAGS) -> %s %s", s.name, res.Status, res.Text)
 		r.probeAgainstMirror(idx, st, s, before, res)
+	case "Search":
+		key, byuid := st.ArgStr(0), st.ArgBool(1)
+		cmd := "SEARCH " + key
+		if byuid {
+			cmd = "UID " + cmd
+		}
+		res = s.c.Cmd(cmd)
+		r.logf("[%s] %s -> %s %s", s.name, cmd, res.Status, res.Text)
+		if res.Status == "OK" {
+			// the answer comes from the session's view: against the model's prediction and the client's own count (C01)
+			var got []int
+			lines := 0
+			for _, l := range res.Untagged {
+				if strings.HasPrefix(l.Text, "* SEARCH") {
+					lines++
+					for _, f := range strings.Fields(strings.TrimPrefix(l.Text, "* SEARCH")) {
+						n, _ := strconv.Atoi(f)
+						got = append(got, n)
+					}
+				}
+			}
+			var want []int
+			for _, w := range st.Wire[st.S] {
+				if w.T == "SEARCH" {
+					want = w.Nums
+				}
+			}
+			if lines != 1 {
+				return r.drift(idx, "mirror", "%s answered with %d SEARCH lines", cmd, lines)
+			}
+			if !byuid {
+				for _, n := range got {
+					if n < 1 || n > len(s.mirror) {
+						r.find("C01", r.taintKey(st, s.name, "F13", "C01/search-beyond-count"),
+							fmt.Sprintf("step %d %s: SEARCH answers sequence number %d while the client counts %d messages", idx, st.Describe(), n, len(s.mirror)), idx)
+					}
+				}
+				if key == "ALL" && len(got) != len(s.mirror) {
+					r.find("C01", r.taintKey(st, s.name, "F13", "C01/search-count"),
+						fmt.Sprintf("step %d %s: SEARCH ALL answers %d messages while the client counts %d", idx, st.Describe(), len(got), len(s.mirror)), idx)
+				}
+			}
+			if fmt.Sprint(got) != fmt.Sprint(want) && !(len(got) == 0 && len(want) == 0) {
+				return r.drift(idx, "mirror", "%s answered %v, specification predicts %v", cmd, got, want)
+			}
+		}
 	case "FetchBody":
 		res = s.c.Cmd("FETCH " + setText(st.ArgInts(0)) + " (BODY[])")
 		r.logf("[%s] FETCH %s (BODY[]) -> %s", s.name, setText(st.ArgInts(0)), res.Status)
@@ -669,7 +716,7 @@ func (r *Rig) Exec(idx int, st *Step, prev *Step) *Drift {
 			}
 		}
 		// C05: FETCH/STORE that held back removals say so
-		if (st.Act == "Fetch" || st.Act == "FetchBody" || st.Act == "Store") && res.Status == "OK" {
+		if (st.Act == "Fetch" || st.Act == "FetchBody" || st.Act == "Store" || st.Act == "Search") && res.Status == "OK" {
 			has := strings.Contains(res.Text, "EXPUNGEISSUED")
 			if has != st.Expunging[st.S] {
 				r.find("C05", "C05/expungeissued", fmt.Sprintf("step %d %s: tagged reply %q, pending removals per specification: %v", idx, st.Describe(), res.Text, st.Expunging[st.S]), idx)
